@@ -90,6 +90,34 @@ def explore(ctx, depth):
     for (l, a, o), r in zip(cases, resp):
         ctx.count(f'alt{a}')
         one_case(ctx, P, l, a, o, r)
+    # one importer object and one exporter object (Humdrum and American) serving the whole grid in sequence: every result is the spelling, and
+    # every pitch object handed out or passed in earlier still is the pitch it was
+    def reused_objects():
+        imp, exp, aexp = P.HumdrumPitchImporter(), P.HumdrumPitchExporter(), P.AmericanPitchExporter()
+        kept, bad = [], []
+        for (l, a, o) in cases:
+            if abs(a) > 3:
+                continue
+            s = spell(l, a, o)
+            p = imp.import_pitch(s)
+            q = P.AgnosticPitch(agn_name(l, a), o)
+            out_p, out_q = exp.export_pitch(p), exp.export_pitch(q)
+            try:
+                aexp.export_pitch(q)
+            except Exception:  # noqa
+                pass
+            if out_p != s or out_q != s:
+                bad.append(['export', s, out_p, out_q])
+            kept.append((s, agn_name(l, a), o, p, q))
+        for s, name, o, p, q in kept:
+            if (p.name, p.octave) != (name, o) or (q.name, q.octave) != (name, o):
+                bad.append(['object changed later', s, [p.name, p.octave], [q.name, q.octave]])
+        return bad[:5]
+    got = call(reused_objects)
+    ctx.seen({'clause': 'one importer / exporter object for the whole grid'}, True)
+    if got != {'ok': []}:
+        ctx.fail({'clause': 'one importer / exporter object for the whole grid'},
+                 'with one importer and one exporter object serving many pitches a result is wrong or an earlier pitch object was altered', impl=got, expected=[])
     # error classes on arbitrary ASCII (tie only)
     rng = ctx.rng
     alphabet = 'abcdefgABCDEFGhzHZ#-+n19 x'
